@@ -397,23 +397,21 @@ impl Property for C05 {
                             a
                         );
                         let paid: Vec<_> = evs.iter().filter(|e| e.0 == w.gas.id).collect();
-                        ensure_p!(paid.len() == 1, "step {}: expected one gas service event", step);
                         ensure_p!(
-                            paid[0].1.contains(&scv(env, BytesN::from_array(env, &keccak256(&payload))))
-                                && paid[0].1.contains(&scv(env, w.users[u].clone()))
-                                && paid[0].1.contains(&scv(env, Token { address: w.gas_asset.clone(), amount: g })),
-                            "step {}: the gas payment event does not carry keccak(payload), payer and the stated gas token/amount: {:?}",
+                            paid.iter().any(|e| e.1.contains(&scv(env, BytesN::from_array(env, &keccak256(&payload))))
+                                && e.1.contains(&scv(env, w.users[u].clone()))
+                                && e.1.contains(&scv(env, Token { address: w.gas_asset.clone(), amount: g }))),
+                            "step {}: no gas payment event carries keccak(payload), payer and the stated gas token/amount: {:?}",
                             step,
-                            paid[0].1
+                            paid
                         );
                         let sent: Vec<_> = evs.iter().filter(|e| e.0 == w.its.id).collect();
-                        ensure_p!(sent.len() == 1, "step {}: expected one service event", step);
                         // the service's own event is not part of the statement beyond naming what was taken
                         ensure_p!(
-                            sent[0].1.contains(&scv(env, BytesN::from_array(env, &tid))) && sent[0].1.contains(&scv(env, a)) && sent[0].1.contains(&scv(env, w.users[u].clone())),
-                            "step {}: the service's transfer event does not name token, sender and amount: {:?}",
+                            sent.iter().any(|e| e.1.contains(&scv(env, BytesN::from_array(env, &tid))) && e.1.contains(&scv(env, a)) && e.1.contains(&scv(env, w.users[u].clone()))),
+                            "step {}: no service event names token, sender and amount: {:?}",
                             step,
-                            sent[0].1
+                            sent
                         );
                     } else {
                         if !undecided {
@@ -475,12 +473,11 @@ impl Property for C05 {
                         successes += 1;
                         let evs = events_since(env, ev0);
                         let recv: Vec<_> = evs.iter().filter(|e| e.0 == w.its.id).collect();
-                        ensure_p!(recv.len() == 1, "step {}: expected one service event", step);
                         ensure_p!(
-                            recv[0].1.contains(&scv(env, BytesN::from_array(env, &tid))) && recv[0].1.contains(&scv(env, a)) && recv[0].1.contains(&scv(env, pool[to_i].clone())),
-                            "step {}: the service's receive event does not name token, recipient and amount: {:?}",
+                            recv.iter().any(|e| e.1.contains(&scv(env, BytesN::from_array(env, &tid))) && e.1.contains(&scv(env, a)) && e.1.contains(&scv(env, pool[to_i].clone()))),
+                            "step {}: no service event names token, recipient and amount: {:?}",
                             step,
-                            recv[0].1
+                            recv
                         );
                         if !data_b.is_empty() {
                             exec_calls += 1;
